@@ -72,6 +72,11 @@ def probes(rnd):
         ("async-nested-from", "SELECT ASYNC.VF_SLOW('t', k) AS v FROM grid"),
         ("subq-nested-from", "SELECT k, (SELECT v FROM `<-meta`) AS s FROM grid"),
         ("cte-name-as-column", "WITH c AS (SELECT a FROM t) SELECT c FROM dual"),
+        # … and as an ARGUMENT (function call, tuple, CASE value, comparison operand): every position resolves the lazy CTE
+        ("cte-name-as-argument", "WITH c AS (SELECT a FROM t) SELECT ARRAY(c) AS x, IF(1 = 1, c, 0) AS y FROM dual"),
+        ("cte-name-as-argument-then-column", "WITH c AS (SELECT a FROM t) SELECT ARRAY(c, 1) AS x, c AS y FROM dual"),
+        ("cte-name-in-first", "WITH c AS (SELECT a FROM t) SELECT FIRST(c) AS f, LAST(c) AS l FROM dual"),
+        ("cte-name-in-case", "WITH c AS (SELECT a FROM t) SELECT CASE WHEN 1 = 1 THEN c ELSE 0 END AS x, (c, 1) AS tup FROM dual"),
         ("fuse-subq-dual", "SELECT FUSE((SELECT * FROM dual)) FROM t"),
         # digests / encodings are functions of their arguments only (not of what was hashed before in this process)
         ("hash", "SELECT HASH(s, 'sha256') AS h, HASH(a, 'md5') AS m, HASH(s, 'sha1') AS g FROM t"),
